@@ -67,7 +67,11 @@ def build(spec, k):
 
 def plan(tier, seed):
     n = len(universe())
-    return [{"rows": list(range(s, min(n, s + ROWS_PER_CASE))), "seed": seed} for s in range(0, n, ROWS_PER_CASE)]
+    cases = [{"rows": list(range(s, min(n, s + ROWS_PER_CASE))), "seed": seed} for s in range(0, n, ROWS_PER_CASE)]
+    # in-situ: the postcondition on is_compatible watches every call the library itself makes
+    for i in range(16 if tier == "quick" else 200):
+        cases.append({"insitu": True, "seed": seed * 1000081 + i})
+    return cases
 
 
 _CACHE = {}
@@ -80,7 +84,47 @@ def _objects(seed):
     return _CACHE[seed]
 
 
+def run_insitu(case):
+    """generation, both graphs and the ensemble-probability search under the is_compatible contract"""
+    import collections
+
+    import gbigsmiles
+
+    from .. import workloads as W
+    from ..monitors import trace
+
+    W.install()
+    cnt = collections.Counter()
+    viol = []
+    for k in range(5):
+        try:
+            subj = W.Subject(case["seed"] * 31 + k, small=(k % 2 == 0), mean_units=3)
+            subj.parse()
+        except Exception:
+            continue
+        for op in ("generate", "reaction_graph", "atom_graph"):
+            trace.reset()
+            try:
+                if op == "generate":
+                    W.observe_generation(subj.lib, W.spy(k), budget=subj.residue_budget())
+                elif op == "reaction_graph":
+                    subj.lib.gen_reaction_graph()
+                else:
+                    subj.lib.gen_stochastic_atom_graph(expect_schulz_zimm_distribution=False)
+            except Exception:
+                pass
+            for v in trace.violations:
+                if v["cls"].startswith("c03."):
+                    viol.append(dict(v, text=subj.text, op=op))
+            cnt["insitu_operations"] += 1
+    c = trace.take_counters()
+    cnt["insitu_is_compatible_calls"] = c.get("contract.is_compatible", 0)
+    return {"viol": viol[:20], "cnt": dict(cnt)}
+
+
 def run_case(case):
+    if case.get("insitu"):
+        return run_insitu(case)
     from gbigsmiles.core import get_compatible_bond_descriptor_ids
 
     U, objs = _objects(case["seed"])
@@ -151,6 +195,8 @@ def finalize(datas, cnt, nt, tier, seed):
     res = {"coverage": {"distinct_descriptors": len(distinct), "distinct_nontrivial": len(nonempty) * (len(nonempty) - 1), "universe_pairs": len(U) ** 2}}
     if cnt.get("pairs", 0) != len(U) ** 2:
         res["inconclusive"] = [f"only {cnt.get('pairs', 0)} of {len(U) ** 2} pairs were evaluated"]
+    if cnt.get("insitu_is_compatible_calls", 0) == 0:
+        res.setdefault("inconclusive", []).append("the in-situ is_compatible contract was never evaluated")
     if cnt.get("expected_true", 0) == 0 or cnt.get("is_compatible_calls", 0) == 0:
         res.setdefault("inconclusive", []).append("monitor never reached")
     return res
